@@ -43,6 +43,15 @@ def gen_phases(rng, n):
 
 
 def gen_adat(rng):
+    k = rng.random()
+    if k < 0.25:       # a grid symmetric about 0 (linspace(-1, 1, m), as the plotting code uses)
+        m = rng.choice([5, 6, 9, 12])
+        return [-1.0 + 2.0 * i / (m - 1) for i in range(m)]
+    if k < 0.4:        # symmetric set of random points, unsorted
+        ps = [rng.uniform(0, 1) for _ in range(4)]
+        pts = [x for p in ps for x in (p, -p)]
+        rng.shuffle(pts)
+        return pts
     pts = [-1.0, 1.0, 0.0, 1 - 1e-12, -(1 - 1e-12), 1 - 1e-6, rng.uniform(-1, 1), rng.uniform(-1, 1), rng.uniform(-0.1, 0.1)]
     return pts
 
@@ -90,6 +99,32 @@ def run(ctx):
             ph = gen_phases(rng, 3)
             cases.append({"fn": "response", "phases": [hexf(x) for x in ph], "adat": [hexf(0.3)],
                           "signal_operator": so, "measurement": m, "timeout": 60})
+        # the identity part of the library's algebra element, evaluated by the library, against the Wz/z response
+        ipcases = []
+        for n in ([1, 2, 3, 4, 7, 12, 33] if quick else list(range(1, 41))):
+            for kind in ("generic", "zero-first", "zero-last", "zero-both", "all-zero", "special"):
+                ph = gen_phases(rng, n) if kind != "special" else [rng.choice(SPECIAL) for _ in range(n)]
+                if kind in ("zero-first", "zero-both"):
+                    ph[0] = 0.0
+                if kind in ("zero-last", "zero-both"):
+                    ph[-1] = 0.0
+                if kind == "all-zero":
+                    ph = [0.0] * n
+                ipcases.append({"fn": "response_ipoly", "phases": [hexf(x) for x in ph], "adat": [hexf(a) for a in gen_adat(rng)], "kind": kind, "timeout": 120})
+        for c, r in zip(ipcases, run_impl(ipcases, timeout=3000)):
+            n = len(c["phases"])
+            ctx.count(c, nontrivial=n >= 2, bucket="identity part via the library/%s" % c["kind"])
+            if "exc" in r:
+                ctx.fail("response", c, "unitary_from_angles / IPoly.eval / ComputeQSPResponse raised %s: %s" % (r["exc"], r.get("msg", "")[:80]))
+                continue
+            for a_hex, u, v in zip(c["adat"], r["ok"]["ipoly"], r["ok"]["pdat"]):
+                a = float.fromhex(a_hex)
+                zu = complex(float.fromhex(u[1]), float.fromhex(u[2]))
+                zv = complex(float.fromhex(v[1]), float.fromhex(v[2]))
+                if not (abs(zu - zv) <= (n + 1) * 1e-12):
+                    ctx.fail("response", dict(c, adat=[a_hex]), "the identity part of unitary_from_angles(phis) evaluated by the library at w = e^{i arccos a}, a=%r, is %r "
+                             "but the Wz/z response is %r" % (a, zu, zv))
+                    break
     impl = run_impl(cases, timeout=3000)
     lines, keep = [], []
     for c, r in zip(cases, impl):
